@@ -147,6 +147,7 @@ Definition cgates_ok (cf : ccfg) (toks : list addr) (prev cur : cobs) (c : ccall
   | CDestroyed f a tok => notif_ok toks prev cur c HDestroyed (MOnDestroyed f a tok) tok
   | CCanTransfer f t a tok => query_ok prev cur c r HCanTransfer (MCanTransfer f t a tok)
   | CCanCreate t a tok => query_ok prev cur c r HCanCreate (MCanCreate t a tok)
+  | CAdvance _ => match co_log cur with [] => true | _ => false end   (* time alone changes nothing: see mods_after / bound_after *)
   end.
 
 Definition cmon_step (cf : ccfg) (toks : list addr) (prev : cobs) (it : citem) : bool :=
